@@ -24,7 +24,7 @@ func (C02) Plan(tier string) core.Plan {
 
 func (C02) Info() core.Info {
 	return core.Info{
-		Rule:        "worlds biased to non-derivability: planned worlds with a supply or a link deleted, prerequisites only reachable through a converter that needs the thing itself, mutual cycles of 2-3 multi-input converters, subtype mismatches, plus random worlds. Judged only when some target parameter has no PERMIT-match in the least fixpoint of PERMIT-derivable labels (upper bound incl. generator-offered converters): Call must return a non-nil error, the target must not run, no party may run with an invented argument; when moreover every supplied converter fires in the EXPECT fixpoint the error must be the dedicated unsatisfied-argument type. Divergence or panic counts as not returning an error. Non-trivial: >=1 converter supplied; distinct = distinct (world shape, event-log hash)",
+		Rule:        "worlds biased to non-derivability: planned worlds with a supply or a link deleted, prerequisites only reachable through a converter that needs the thing itself, mutual cycles of 2-3 multi-input converters, subtype mismatches, plus random worlds. Judged only when some target parameter has no PERMIT-match in the least fixpoint of PERMIT-derivable labels (upper bound incl. generator-offered converters): Call must return a non-nil error, the target must not run, no party may run with an invented argument; when moreover every supplied converter fires in the EXPECT fixpoint the error must be the dedicated unsatisfied-argument type. Divergence or panic counts as not returning an error; further shapes: assignable-but-not-identical types (defined slice type vs. its unnamed base), a run-once target that succeeded followed by the judged underivable call, an underivable parameter declared by embedding its type. Non-trivial: >=1 converter supplied; distinct = distinct (world shape, event-log hash)",
 		Assumptions: []string{"PERMIT over-approximates every binding a correct library may make (C01), so a parameter outside its fixpoint is truly underivable"},
 		Probes:      []string{"c02_underivable_calls", "c02_with_cycle", "c02_after_successful_call", "c02_dedicated_error_required", "c02_converter_ran_before_refusal", "s1_nonidentity_perms"},
 		Real:        realComponents,
